@@ -315,8 +315,8 @@ Definition lab_reps (lab : list (Z * Z)) : list Z := zdedup (map snd lab).
 Definition lab_classes (lab : list (Z * Z)) (nodes : list Z) : list (list Z) :=
   map (class_of lab nodes) (lab_reps lab).
 
-(* the connected components as node lists: one class per distinct final label, in the order of
-   first... last occurrence of the label, each class in node order *)
+(* the connected components as node lists: one class per distinct final label (ordered by the last
+   occurrence of the label in the label list, as zdedup does), each class in node order *)
 Definition components (nodes : list Z) (es : list edge) : list (list Z) :=
   lab_classes (labels nodes es) nodes.
 (* their representatives: the distinct final labels *)
@@ -514,3 +514,128 @@ Proof.
   unfold component_sizes, reps, representatives, lab_reps. cbv zeta. apply map_length.
 Qed.
 Print Assumptions representatives_spec.
+
+(* ================================================================== Part 3: (4) corollaries *)
+Theorem component_sizes_sum nodes es : NoDup nodes -> closed nodes es ->
+  list_sum (component_sizes nodes es) = length nodes.
+Proof.
+  intros ND Hc. rewrite (component_sizes_components nodes es ND Hc), <- concat_length_sum.
+  apply Permutation_length. exact (proj1 (components_partition nodes es ND Hc)).
+Qed.
+Print Assumptions component_sizes_sum.
+
+(* no empty component *)
+Theorem component_sizes_pos nodes es : NoDup nodes -> closed nodes es ->
+  forall s, In s (component_sizes nodes es) -> 1 <= s.
+Proof.
+  intros ND Hc s Hs. rewrite (component_sizes_components nodes es ND Hc) in Hs.
+  apply in_map_iff in Hs. destruct Hs as (c & <- & Hcin).
+  destruct (components_partition nodes es ND Hc) as (_ & Hcl & _). rewrite Forall_forall in Hcl.
+  destruct (Hcl c Hcin) as (Hne & _). destruct c as [|h t]; [congruence | cbn [length]; lia].
+Qed.
+Print Assumptions component_sizes_pos.
+
+(* the reported component summary, against ANY partition cs of the nodes into connected components
+   (one exists: components_partition): the number of components; the size of a largest one; the size
+   of a second largest one, 0 when there is at most one component *)
+Theorem stats_components_spec nodes es : NoDup nodes -> closed nodes es ->
+  forall cs, is_partition nodes es cs ->
+  let st := statistics nodes es in
+  s_components st = length cs /\
+  (forall c, In c cs -> length c <= s_lcc st) /\
+  (cs <> [] -> exists c, In c cs /\ length c = s_lcc st) /\
+  (length cs <= 1 -> s_slcc st = 0) /\
+  (2 <= length cs -> exists c1 c2 rest, Permutation cs (c1 :: c2 :: rest) /\
+     length c1 = s_lcc st /\ length c2 = s_slcc st /\ s_slcc st <= s_lcc st /\
+     forall c, In c rest -> length c <= s_slcc st).
+Proof.
+  intros ND Hc cs P st.
+  assert (Q : Permutation (sort_desc (component_sizes nodes es)) (map (@length Z) cs)).
+  { rewrite sort_desc_perm. apply component_sizes_any_partition; assumption. }
+  assert (D := sort_desc_desc (component_sizes nodes es)).
+  unfold st, statistics; cbn [s_components s_lcc s_slcc].
+  remember (sort_desc (component_sizes nodes es)) as ccs eqn:Eccs. clear Eccs.
+  destruct (Permutation_map_inv _ _ Q) as (l3 & E3 & P3). subst ccs. clear Q.
+  assert (Len : length cs = length l3) by (apply Permutation_length, P3).
+  rewrite map_length, Len.
+  destruct l3 as [|c1 [|c2 rest]].
+  - apply Permutation_sym, Permutation_nil in P3. subst cs. cbn.
+    split; [reflexivity|]. split; [intros c []|]. split; [congruence|]. split; [reflexivity | lia].
+  - cbn [map nth length]. split; [reflexivity|].
+    split; [intros c Hcin; apply (Permutation_in _ P3) in Hcin; destruct Hcin as [<-|[]]; lia|].
+    split; [intros _; exists c1; split; [apply (Permutation_in _ (Permutation_sym P3)); left|]; reflexivity|].
+    split; [reflexivity | lia].
+  - cbn [map nth length]. cbn [map] in D.
+    inversion D as [| |? ? ? H21 D']; subst.
+    split; [reflexivity|].
+    split.
+    { intros c Hcin. apply (Permutation_in _ P3) in Hcin.
+      apply (desc_head_max _ _ D). change (In (length c) (map (@length Z) (c1 :: c2 :: rest))).
+      apply in_map, Hcin. }
+    split; [intros _; exists c1; split; [apply (Permutation_in _ (Permutation_sym P3)); left|]; reflexivity|].
+    split; [lia|]. intros _. exists c1, c2, rest.
+    split; [exact P3|]. split; [reflexivity|]. split; [reflexivity|]. split; [exact H21|].
+    intros c Hcin. apply (desc_head_max _ _ D'). right. apply in_map, Hcin.
+Qed.
+Print Assumptions stats_components_spec.
+
+Lemma list_sum_ge x l : In x l -> x <= list_sum l.
+Proof.
+  induction l as [|d l IH]; intros H; [destruct H|].
+  change (list_sum (d :: l)) with (d + list_sum l).
+  destruct H as [<-|H]; [lia | specialize (IH H); lia].
+Qed.
+
+(* the same, for the components the model computes, and the number of representatives *)
+Corollary stats_components_computed nodes es : NoDup nodes -> closed nodes es ->
+  let st := statistics nodes es in
+  s_components st = length (components nodes es) /\
+  s_components st = length (representatives nodes es) /\
+  (nodes <> [] -> 1 <= s_components st /\ 1 <= s_lcc st) /\
+  s_lcc st <= length nodes.
+Proof.
+  intros ND Hc st. assert (P := components_partition nodes es ND Hc).
+  destruct (stats_components_spec nodes es ND Hc _ P) as (A & B & C & _). fold st in A, B, C.
+  split; [exact A|]. split; [rewrite A; unfold components, lab_classes, representatives; apply map_length|].
+  assert (S := component_sizes_sum nodes es ND Hc).
+  rewrite (component_sizes_components nodes es ND Hc) in S.
+  destruct (components nodes es) as [|c cs] eqn:E.
+  - cbn in S. split; [intros Hne; destruct nodes; [congruence | discriminate S]|].
+    unfold st, statistics; cbn [s_lcc]. rewrite (component_sizes_components nodes es ND Hc), E. cbn. lia.
+  - destruct (C ltac:(discriminate)) as (c' & Hc' & <-).
+    destruct P as (_ & Hcl & _). rewrite Forall_forall in Hcl. destruct (Hcl c' Hc') as (Hne & _).
+    split; [intros _; split; [rewrite A; cbn [length]; lia | destruct c'; [congruence | cbn [length]; lia]]|].
+    rewrite <- S. apply list_sum_ge, in_map, Hc'.
+Qed.
+Print Assumptions stats_components_computed.
+
+(* ================================================================== (5) non-vacuity
+   three components: the isolated node 4; {1,7}; {3,5,9} with the self-loop (9,9) and the edge 5-9
+   three times (once reversed).  The class sizes come out as [1;2;3] and are sorted for the summary. *)
+Example components_example :
+  let nodes := [4; 1; 7; 5; 3; 9]%Z in
+  let es := [(5, 9); (9, 9); (7, 1); (3, 9); (9, 5); (5, 9)]%Z in
+  NoDup nodes /\ closed nodes es /\
+  labels nodes es = [(4, 4); (1, 1); (7, 1); (5, 3); (3, 3); (9, 3)]%Z /\
+  components nodes es = [[4]; [1; 7]; [5; 3; 9]]%Z /\
+  representatives nodes es = [4; 1; 3]%Z /\
+  component_sizes nodes es = [1; 2; 3] /\
+  s_components (statistics nodes es) = 3 /\ s_lcc (statistics nodes es) = 3 /\ s_slcc (statistics nodes es) = 2 /\
+  connected es 5 3 /\ ~ connected es 7 3 /\ ~ connected es 4 1.
+Proof.
+  cbv zeta.
+  assert (ND : NoDup [4; 1; 7; 5; 3; 9]%Z) by (repeat constructor; cbn; intuition discriminate).
+  assert (Hc : closed [4; 1; 7; 5; 3; 9]%Z [(5, 9); (9, 9); (7, 1); (3, 9); (9, 5); (5, 9)]%Z).
+  { intros e He. cbn in He. repeat (destruct He as [<-|He]; [cbn; tauto|]). destruct He. }
+  split; [exact ND|]. split; [exact Hc|].
+  split; [vm_compute; reflexivity|]. split; [vm_compute; reflexivity|]. split; [vm_compute; reflexivity|].
+  split; [vm_compute; reflexivity|]. split; [vm_compute; reflexivity|]. split; [vm_compute; reflexivity|].
+  split; [vm_compute; reflexivity|].
+  split; [|split].
+  - apply (labels_same_iff_connected _ _ Hc 5%Z 3%Z); [cbn; tauto | cbn; tauto | vm_compute; reflexivity].
+  - intros C. apply (labels_same_iff_connected _ _ Hc 7%Z 3%Z) in C; [|cbn; tauto|cbn; tauto].
+    vm_compute in C. discriminate C.
+  - intros C. apply (labels_same_iff_connected _ _ Hc 4%Z 1%Z) in C; [|cbn; tauto|cbn; tauto].
+    vm_compute in C. discriminate C.
+Qed.
+Print Assumptions components_example.
